@@ -69,6 +69,48 @@ def run(ck: Checker):
     okf = len(fills) == 1 and len(fills[0].iter.args) == 1 and linear_form(fills[0].iter.args[0], init) is not None and linear_form(fills[0].iter.args[0], init)[:3] == (1, 0, 'num_suppliers')
     ck.ob('C17-6', init, fills[0] if fills else init.node, okf, 'exactly num_suppliers spare tokens are created' if okf else 'the number of spare tokens created is not `num_suppliers`')
     ck.need(n_q >= 6, f'{init.key}: only {n_q} token queue constructions found')
+    # ------------------------------------------------------------------ C17-7
+    ck.rule('C17-7', 'the object travels wherever its queue travels: helper queues and the lock of the thread-only kind (queue.Queue, threading.Lock — not picklable) are created only where a positive isinstance test has identified the queue as a thread queue; any other queue (a multiprocessing queue, or the ResponsiveQueue wrapper put around either kind) gets the multiprocessing kind, which works everywhere (GUARD)', minimum=1)
+    THREAD_Q = {'queue.Queue', 'queue.SimpleQueue', 'Queue', 'SimpleQueue', 'queue.LifoQueue', 'queue.PriorityQueue'}
+
+    def reach_condition(target, body, conds):
+        """list of (test, polarity) under which `target` (a statement) is reached inside `body`"""
+        for st in body:
+            if st is target:
+                return conds
+            if isinstance(st, ast.If):
+                r = reach_condition(target, st.body, conds + [(st.test, True)])
+                if r is None:
+                    r = reach_condition(target, st.orelse, conds + [(st.test, False)])
+                if r is not None:
+                    return r
+            for fld in ('body', 'orelse', 'finalbody'):
+                sub = getattr(st, fld, None)
+                if isinstance(sub, list) and not isinstance(st, ast.If):
+                    r = reach_condition(target, sub, conds)
+                    if r is not None:
+                        return r
+        return None
+
+    thread_kind = [n for n in walk_deep_func(init.node) if isinstance(n, ast.Assign) and isinstance(n.value, ast.Call) and (dotted(n.value.func) or '') in ('threading.Lock', 'threading.RLock', 'queue.Queue', 'queue.SimpleQueue') and (dotted(n.targets[0]) or '').startswith('self._')]
+    ck.need(thread_kind, f'{init.key}: no thread-kind helper construction found')
+    probs = []
+    for n in thread_kind:
+        conds = reach_condition(n, init.node.body, []) or []
+        positive = False
+        for t, pol in conds:
+            neg = not pol
+            while isinstance(t, ast.UnaryOp) and isinstance(t.op, ast.Not):
+                t, neg = t.operand, not neg
+            ii = is_isinstance(t) if 'is_isinstance' in globals() else None
+            if ii is None and isinstance(t, ast.Call) and dotted(t.func) == 'isinstance' and len(t.args) == 2:
+                cl = t.args[1]
+                ii = (t.args[0], [dotted(e) or '?' for e in (cl.elts if isinstance(cl, ast.Tuple) else [cl])])
+            if ii and not neg and set(ii[1]) <= THREAD_Q:
+                positive = True
+        if not positive:
+            probs.append(f'L{n.lineno}: `{norm_text(n)[:60]}` is reached without a positive `isinstance(q, (queue.Queue, queue.SimpleQueue))`: a multiprocessing queue (in particular one wrapped in ResponsiveQueue because a stop event was given) gets thread-only helpers, and the object can no longer be sent to another process (cannot pickle \'_thread.lock\')')
+    ck.ob('C17-7', init, thread_kind[0], not probs, probs[0] if probs else f'{len(thread_kind)} thread-kind helpers, each created under a positive isinstance test for the thread queue classes; every other queue gets multiprocessing helpers')
     ck.rule('C17-5', 'timeouts of put/get reach the underlying queue operation as given (0 = do not wait is legal): re-bound only under `is None`, never replaced through truthiness (GUARD)', minimum=3)
     from .common import check_timeout_passthrough
 
